@@ -11,7 +11,9 @@ EXTENDS Frost, Json
 
 CONSTANTS Shapes, IdSets, KeyChoices, CoeffChoices,     \* the original sharing
           Procs,                 \* subset of {"dealer", "dkg"}
-          Scenarios,             \* subset of {"ok","small","unknown","tchange","nonzero","onelen"}
+          Scenarios,             \* subset of {"ok","small","unknown","tchange","nonzero","onelen","tchange_legacy"}
+                                 \* (tchange_legacy: distributed variant, another threshold, and the old public key
+                                 \*  package is a pre-3.0 one that records no threshold: the key package's counts)
           RCoeffChoices,         \* coefficients of refreshing polynomials
           KChoices,              \* proof nonces (distributed variant)
           Rounds,                \* number of consecutive refreshes in scenario "ok"
@@ -65,7 +67,7 @@ Plan ==
        \/ /\ scen = "small"
           /\ \E R \in SUBSET IdSet : Card(R) < sc.t /\ Card(R) >= 1 /\
                sc' = sc @@ [scen |-> scen, R |-> Sorted(R), procs |-> <<proc>>, order |-> "asc"]
-       \/ /\ scen \in {"unknown", "tchange", "nonzero"}
+       \/ /\ scen \in {"unknown", "tchange", "nonzero"} \/ (scen = "tchange_legacy" /\ proc = "dkg")
           /\ sc' = sc @@ [scen |-> scen, R |-> sc.ids, procs |-> <<proc>>, order |-> "asc"]
        \* distributed variant: one participant's contribution commits to a polynomial of another degree
        \/ /\ scen = "onelen" /\ proc = "dkg" /\ sc.t + 1 <= sc.n
@@ -118,7 +120,7 @@ DealerShare ==
 (* distributed refresh *)
 
 NR == IF sc.scen = "unknown" THEN Len(sc.R) + 1 ELSE Len(sc.R)
-TR == IF sc.scen = "tchange" THEN (IF sc.t + 1 <= NR THEN sc.t + 1 ELSE sc.t - 1) ELSE sc.t
+TR == IF sc.scen \in {"tchange", "tchange_legacy"} THEN (IF sc.t + 1 <= NR THEN sc.t + 1 ELSE sc.t - 1) ELSE sc.t
 
 TRi(i) == IF sc.scen = "onelen" /\ i = sc.bad THEN sc.t + 1 ELSE TR
 
@@ -137,7 +139,17 @@ Rd2 ==
   /\ LET i == sc.R[pc[2]] IN
        ActDkg2(<<"rr2s" \o ToString(E + 1), i>>, R2N(E + 1, i), <<"rr1s" \o ToString(E + 1), i>>,
                [l \in RSet \ {i} |-> <<"rr1p" \o ToString(E + 1), l>>], TRUE)
-  /\ Go(IF LastR(pc[2]) THEN (IF sc.scen = "nonzero" THEN <<"forge", 0>> ELSE <<"rd3", 1>>) ELSE <<"rd2", pc[2] + 1>>)
+  /\ Go(IF LastR(pc[2]) THEN (IF sc.scen = "nonzero" THEN <<"forge", 0>>
+                             ELSE IF sc.scen = "tchange_legacy" THEN <<"legacy", 1>> ELSE <<"rd3", 1>>)
+        ELSE <<"rd2", pc[2] + 1>>)
+  /\ UNCHANGED sc
+
+\* every participant's copy of the old public key package loses its threshold field (pre-3.0 encoding)
+OldPkp(i) == IF sc.scen = "tchange_legacy" THEN <<"pkpLeg", i>> ELSE CurPkp(E, i)
+MakeLegacy ==
+  /\ pc[1] = "legacy"
+  /\ LET i == sc.R[pc[2]] IN ActLieMin(<<"pkpLeg", i>>, CurPkp(E, i), -1)
+  /\ pc' = IF LastR(pc[2]) THEN <<"rd3", 1>> ELSE <<"legacy", pc[2] + 1>>
   /\ UNCHANGED sc
 
 Rd3 ==
@@ -145,7 +157,7 @@ Rd3 ==
   /\ LET i == sc.R[pc[2]] IN
        ActDkg3(KP(E + 1, i), PKPi(E + 1, i), <<"rr2s" \o ToString(E + 1), i>>,
                [l \in RSet \ {i} |-> <<"rr1p" \o ToString(E + 1), l>>],
-               [l \in RSet \ {i} |-> <<R2N(E + 1, l), i>>], TRUE, CurPkp(E, i), KP(E, i))
+               [l \in RSet \ {i} |-> <<R2N(E + 1, l), i>>], TRUE, OldPkp(i), KP(E, i))
   /\ Go(IF LastR(pc[2]) THEN <<"epoch", 0>> ELSE <<"rd3", pc[2] + 1>>)
   /\ UNCHANGED sc
 
@@ -215,7 +227,7 @@ DoVerify ==
   /\ UNCHANGED sc
 
 Next == KeyGen \/ MakeKp \/ Plan \/ LieThreshold \/ DealerShares \/ ForgeNonZero \/ DealerShare
-        \/ Rd1 \/ Rd2 \/ Rd3 \/ NextEpoch \/ Choose \/ DoCommit \/ DoPackage \/ DoSign \/ DoAggregate \/ DoVerify
+        \/ Rd1 \/ Rd2 \/ MakeLegacy \/ Rd3 \/ NextEpoch \/ Choose \/ DoCommit \/ DoPackage \/ DoSign \/ DoAggregate \/ DoVerify
 Spec == Init /\ [][Next]_vars
 
 -----------------------------------------------------------------------------
@@ -269,9 +281,11 @@ InvVerify == (last.op = "verify") => last.res.ok
 InvRejected ==
   (Planned /\ sc.scen # "ok" /\ pc[1] = "done") =>
      /\ ~last.res.ok
-     /\ (sc.scen = "onelen") => (last.op = "dkg2" /\ last.res.err = "IncorrectNumberOfCommitments")
+     /\ (sc.scen = "onelen") => ((last.op = "dkg2" /\ last.res.err = "IncorrectNumberOfCommitments")
+                                  \/ (last.op = "dkg1" /\ last.res.err = "GroupError"))
      /\ (sc.scen = "unknown" /\ Proc = "dealer") => last.res.err = "UnknownIdentifier"
-     /\ (sc.scen = "nonzero") => last.res.err = "InvalidSecretShare"
+     \* (a zero first coefficient makes part1's commitment unencodable before the forged share is ever used)
+     /\ (sc.scen = "nonzero") => (last.res.err = "InvalidSecretShare" \/ (last.op = "dkg1" /\ last.res.err = "GroupError"))
 
 Emit == (EMIT /\ pc[1] = "done" /\ Planned) =>
    PrintT(ToJson(Script("C10") @@ [probe |-> sc.scen, gen_accept |-> (sc.scen = "ok"), accepted |-> last.res.ok]))
